@@ -84,6 +84,17 @@ def run_property(pid, plan, tier, seed, jobs, t0):
         elif r and r.get("error"):
             print("native witness error:", json.dumps(r)[:1500])
             return 3
+    # ---- regression witnesses of repaired findings whose code is not under contract: re-run on the real code (a fixed entry
+    #      suppresses nothing: if the failure is back it is reported as a violation, with the failing input)
+    regress = []
+    for fx in kf.get("fixed", []):
+        if fx.get("property") == pid and fx.get("native") and fx.get("witness_id"):
+            r = native(fx["native"], ["witness", fx["witness_id"]])
+            if r and r.get("fails"):
+                regress.append((fx, r))
+            elif r and r.get("error"):
+                print("native witness error:", json.dumps(r)[:1500])
+                return 3
     regions = {}
     for f in active:
         for ob, reg in (f.get("regions") or {}).items():
@@ -130,6 +141,14 @@ def run_property(pid, plan, tier, seed, jobs, t0):
     rc = 0
     violations = 0
     os.makedirs(os.path.join(VERIF, "replays", pid), exist_ok=True)
+    for fx, r in regress:
+        path = os.path.join("replays", pid, "regression_" + fx["witness_id"] + ".json")
+        json.dump({"property": pid, "obligation": "regression witness of repaired finding " + fx["witness_id"], "fixed_entry": fx.get("entry"),
+                   "native": fx["native"], "reproduced": True, "failing_input": {"witness": fx.get("witness"), "scenario": "clash"},
+                   "native_note": r.get("failure")}, open(os.path.join(VERIF, path), "w"), indent=1, default=str)
+        print(f"VIOLATION property={pid} replay={path}")
+        violations += 1
+        rc = 1
     if errors:
         for t, e, c in errors:
             print(f"CHECKER-ERROR property={pid} function={t} {e}")
